@@ -1,5 +1,6 @@
 pub mod ast_norm;
 pub mod engine;
+pub mod exec;
 pub mod json;
 pub mod props;
 pub mod util;
